@@ -190,3 +190,25 @@ func Guard(f func()) (panicked bool, msg string) {
 	f()
 	return
 }
+
+// Fresh runs one (sub-)case in a fresh OS process of this same binary and returns the record it printed.
+// Harnesses use it for histories that compare what several PROCESSES compute (e.g. two processing orders):
+// inside one process a leaked table saturates after the first run and every later run is equally wrong.
+func Fresh(subcase interface{}) (json.RawMessage, error) {
+	b, err := json.Marshal(subcase)
+	if err != nil {
+		return nil, err
+	}
+	self, _ := os.Executable()
+	ctx, cancel := context.WithTimeout(context.Background(), 60*time.Second)
+	defer cancel()
+	cmd := exec.CommandContext(ctx, self, "one")
+	cmd.Stdin = bytes.NewReader(b)
+	var so, se bytes.Buffer
+	cmd.Stdout = &so
+	cmd.Stderr = &se
+	if err := cmd.Run(); err != nil {
+		return nil, fmt.Errorf("fresh process: %v: %s", err, tail(se.String(), 500))
+	}
+	return json.RawMessage(bytes.TrimSpace(so.Bytes())), nil
+}
